@@ -22,6 +22,8 @@ pub struct Base<G: Cv> {
     pub comms: Vec<G>,
     pub parts: Parts<G>,
     pub kind: &'static str,
+    /// order in which the real prover invoked the closures
+    pub order: Vec<usize>,
 }
 
 #[derive(Debug)]
@@ -49,6 +51,10 @@ pub fn judge<G: Cv>(env: &Env<G>, prog: &Program, comms: &[G], parts: &Parts<G>,
         // a panicking verifier gives no verdict to compare; panics on hostile proofs are C08's business
         Err(m) => return Out::Agree { accept: false, why: format!("precondition: verify panicked ({})", m.chars().take(60).collect::<String>()) },
     };
+    if !vctx.problems.is_empty() {
+        // the verifier did not build the constraint system the reference model holds (C16's business)
+        return Out::Agree { accept: real_ok, why: "precondition: verifier and reference model disagree on the variables handed out".into() };
+    }
     let padded = {
         // the statement's gate count comes from the program, not from where the verifier stopped
         let (_, _, g, _) = prog.stats();
@@ -146,13 +152,13 @@ pub fn make_bases<G: Cv>(env: &Env<G>, progs: &[&Program], seed: u64) -> Vec<Bas
     for p in progs {
         let Ok(pr) = program::try_prove::<G>(p, &env.pc, &env.bp, seed, "c03", Dev::None) else { continue };
         if let Ok(b) = &pr.proof {
-            out.push(Base { name: p.name(), prog: (*p).clone(), comms: pr.commitments.clone(), parts: Parts::<G>::parse(b).expect("parse"), kind: "honest" });
+            out.push(Base { name: p.name(), prog: (*p).clone(), comms: pr.commitments.clone(), parts: Parts::<G>::parse(b).expect("parse"), kind: "honest", order: pr.ctx.closure_order.clone() });
         }
         let (w, _, _, _) = p.stats();
         if w > 0 && (out.len() % 3 == 1) {
             let Ok(pr) = program::try_prove::<G>(p, &env.pc, &env.bp, seed, "c03", Dev::Witness { idx: w - 1, delta: G::ScalarField::one() }) else { continue };
             if let Ok(b) = &pr.proof {
-                out.push(Base { name: format!("{} [bad witness]", p.name()), prog: (*p).clone(), comms: pr.commitments.clone(), parts: Parts::<G>::parse(b).expect("parse"), kind: "bad-witness" });
+                out.push(Base { name: format!("{} [bad witness]", p.name()), prog: (*p).clone(), comms: pr.commitments.clone(), parts: Parts::<G>::parse(b).expect("parse"), kind: "bad-witness", order: pr.ctx.closure_order.clone() });
             }
         }
     }
@@ -288,7 +294,7 @@ fn curve_work<G: Cv>(progs: &[&Program], o: &Opts, start: std::time::Instant, re
                 DevSel::RunZero(m) => *m,
                 _ => 0,
             };
-            let rp = match crate::evidence::guarded(|| crate::refprover::ref_prove_z::<G>(&env, labels.as_ref().unwrap(), &b.prog, o.seed, "c03-ref", rd, zm)) {
+            let rp = match crate::evidence::guarded(|| crate::refprover::ref_prove_z::<G>(&env, labels.as_ref().unwrap(), &b.prog, o.seed, "c03-ref", rd, zm, &b.order)) {
                 Ok(Ok(p)) => p,
                 Ok(Err(e)) => return Out::Bad { expected: "reference prover runs".into(), observed: e },
                 Err(m) => return Out::Bad { expected: "reference prover runs".into(), observed: format!("panicked: {}", m) },
